@@ -251,6 +251,63 @@ def build():
         one(r"Rrset::check_ttls\(&slice\)\.expect\(", cb, "Rrset::%s TTL expect" % ctor)
     defs.append(("rrset_new_panics_on_mixed_ttl", "bool", "true"))
 
+    # ---- public key parsing: rsa_exponent_modulus and key_size ---------------
+    cc = strip_comments(read("src/crypto/common.rs"))
+    rem = fn_body(cc, "rsa_exponent_modulus")
+    m = one(r"\[exp_len\s*@\s*(\d+)\.\.=(\d+),\s*ref\s+rest\s*@\s*\.\.\]\s*=>\s*\(exp_len\s+as\s+usize,\s*rest\)", rem, "rsa one-octet exponent length")
+    defs.append(("rsa_short_min", "N", "%d%%N" % num(m.group(1))))
+    defs.append(("rsa_short_max", "N", "%d%%N" % num(m.group(2))))
+    m = one(r"\[0,\s*hi\s*@\s*(\d+)\.\.=255,\s*lo,\s*ref\s+rest\s*@\s*\.\.\]\s*=>\s*\{\s*let\s+exp_len\s*=\s*u16::from_be_bytes\(\[hi,\s*lo\]\)", rem, "rsa three-octet exponent length")
+    defs.append(("rsa_long_hi_min", "N", "%d%%N" % num(m.group(1))))
+    one(r"_\s*=>\s*return\s+Err\(AlgorithmError::InvalidData\)", rem, "rsa other prefixes invalid")
+    one(r"if\s+rest\.len\(\)\s*<\s*exp_len\s*\{\s*return\s+Err\(AlgorithmError::InvalidData\)", rem, "rsa exponent longer than the key")
+    one(r"let\s+\(exp,\s*num\)\s*=\s*rest\.split_at\(exp_len\)", rem, "rsa split")
+    m = one(r"if\s+!\((\d+)\.\.=(\d+)\)\.contains\(&i\.len\(\)\)\s*\|\|\s*i\[0\]\s*==\s*0\s*\{\s*return\s+Err\(AlgorithmError::InvalidData\)", rem, "rsa part limits")
+    defs.append(("rsa_part_min_len", "N", "%d%%N" % num(m.group(1))))
+    defs.append(("rsa_part_max_len", "N", "%d%%N" % num(m.group(2))))
+    one(r"if\s+num\.len\(\)\s*<\s*min_len\s*\{\s*return\s+Err\(AlgorithmError::Unsupported\)", rem, "rsa modulus too short for the caller")
+    ks = fn_body(base, "key_size", after="DnskeyExt for Dnskey")
+    def alg_list(txt, what):
+        names = re.findall(r"SecurityAlgorithm::(\w+)", txt)
+        if not names:
+            raise GenError("key_size: no algorithms in " + what)
+        return [int_enum_value(sa, n, "SecurityAlgorithm::" + n) for n in names]
+    m = one(r"match\s+self\.algorithm\(\)\s*\{(.*?)=>\s*\{\s*let\s+data\s*=\s*self\.public_key\(\)\.as_ref\(\)\s*;", ks, "key_size RSA arm")
+    defs.append(("ks_rsa_algorithms", "list N", nlist(alg_list(m.group(1), "RSA arm"))))
+    one(r"\[0,\s*hi,\s*lo,\s*\.\.\]\s*=>\s*\{?\s*\(usize::from\(u16::from_be_bytes\(\[hi,\s*lo\]\)\),\s*3\)", ks, "key_size three-octet exponent length")
+    one(r"\[\]\s*\|\s*\[0,\s*\.\.\]\s*=>\s*return\s+Err\(AlgorithmError::InvalidData\)", ks, "key_size short key")
+    one(r"\[len,\s*\.\.\]\s*=>\s*\(usize::from\(len\),\s*1\)", ks, "key_size one-octet exponent length")
+    one(r"let\s+n\s*=\s*data\s*\.get\(off\s*\+\s*exp_len\.\.\)\s*\.ok_or\(AlgorithmError::InvalidData\)\?\s*;\s*let\s+first\s*=\s*n\.first\(\)\.ok_or\(AlgorithmError::InvalidData\)\?\s*;\s*Ok\(n\.len\(\)\s*\*\s*8\s*-\s*first\.leading_zeros\(\)\s+as\s+usize\)", ks, "key_size modulus access is checked")
+    m = one(r"\}\s*((?:SecurityAlgorithm::\w+\s*\|?\s*)+)=>\s*\{\s*Ok\(self\.public_key\(\)\.as_ref\(\)\.len\(\)\s*/\s*2\s*\*\s*8\)", ks, "key_size ECDSA arm")
+    defs.append(("ks_ecdsa_algorithms", "list N", nlist(alg_list(m.group(1), "ECDSA arm"))))
+    m = one(r"\}\s*((?:SecurityAlgorithm::\w+\s*\|?\s*)+)=>\s*\{\s*Ok\(self\.public_key\(\)\.as_ref\(\)\.len\(\)\s*\*\s*8\)", ks, "key_size EdDSA arm")
+    defs.append(("ks_eddsa_algorithms", "list N", nlist(alg_list(m.group(1), "EdDSA arm"))))
+    one(r"_\s*=>\s*Err\(AlgorithmError::Unsupported\)", ks, "key_size other algorithms")
+
+    # ---- zone signing: which RRsets get an RRSIG ---------------------------------
+    zs = fn_body(sg, "sign_sorted_zone_records")
+    one(r"records\.skip_before\(apex_owner\)\s*;\s*for\s+owner_rrs\s+in\s+records\s*\{", zs, "zone: skip_before then iterate owner groups")
+    m = one(r"if\s+!owner_rrs\.is_in_zone\(apex_owner\)\s*\{\s*(break|continue)\s*;\s*\}", zs, "zone: out-of-zone owner")
+    defs.append(("zs_out_of_zone_stops", "bool", "true" if m.group(1) == "break" else "false"))
+    one(r"if\s+let\s+Some\(ref\s+cut\)\s*=\s*cut\s*\{\s*if\s+owner_rrs\.owner\(\)\.ends_with\(cut\)\s*\{\s*continue\s*;\s*\}\s*\}", zs, "zone: below a cut is skipped")
+    one(r"let\s+name\s*=\s*owner_rrs\.owner\(\)\.clone\(\)\s*;\s*cut\s*=\s*if\s+owner_rrs\.is_zone_cut\(apex_owner\)\s*\{\s*Some\(name\.clone\(\)\)\s*\}\s*else\s*\{\s*None\s*\}\s*;", zs, "zone: cut bookkeeping")
+    m = one(r"for\s+rrset\s+in\s+owner_rrs\.rrsets\(\)\s*\{\s*if\s+cut\.is_some\(\)\s*\{\s*if\s+rrset\.rtype\(\)\s*!=\s*Rtype::(\w+)\s*&&\s*rrset\.rtype\(\)\s*!=\s*Rtype::(\w+)\s*\{\s*continue\s*;\s*\}\s*\}", zs, "zone: types signed at a cut")
+    defs.append(("zs_cut_type_a", "N", "%d%%N" % int_enum_value(rt, m.group(1), "Rtype::" + m.group(1))))
+    defs.append(("zs_cut_type_b", "N", "%d%%N" % int_enum_value(rt, m.group(2), "Rtype::" + m.group(2))))
+    m = one(r"else\s+if\s+\(((?:\s*rrset\.rtype\(\)\s*==\s*Rtype::\w+\s*\|?\|?)+)\)\s*&&\s*name\.canonical_cmp\(apex_owner\)\s*==\s*Ordering::Equal\s*\{\s*continue\s*;\s*\}", zs, "zone: apex key material skipped")
+    defs.append(("zs_apex_skipped_types", "list N", nlist([int_enum_value(rt, n, "Rtype::" + n) for n in re.findall(r"Rtype::(\w+)", m.group(1))])))
+    m = one(r"else\s*\{\s*if\s+rrset\.rtype\(\)\s*==\s*Rtype::(\w+)\s*\{\s*continue\s*;\s*\}\s*\}\s*for\s+key\s+in\s+keys\s*\{", zs, "zone: RRSIGs never signed, then one signature per key")
+    defs.append(("zs_never_signed_type", "N", "%d%%N" % int_enum_value(rt, m.group(1), "Rtype::" + m.group(1))))
+    izc = fn_body(rs, "is_zone_cut", after="impl<'a, N, D> OwnerRrs<'a, N, D>")
+    m = one(r"^\s*self\.owner\(\)\.ne\(apex\)\s*&&\s*self\.records\(\)\.any\(\|record\|\s*record\.rtype\(\)\s*==\s*Rtype::(\w+)\)\s*$", izc, "is_zone_cut")
+    defs.append(("zs_cut_marker_type", "N", "%d%%N" % int_enum_value(rt, m.group(1), "Rtype::" + m.group(1))))
+    one(r"^\s*self\.owner\(\)\.ends_with\(&apex\)\s*$", fn_body(rs, "is_in_zone", after="impl<'a, N, D> OwnerRrs<'a, N, D>"), "is_in_zone")
+    one(r"if\s+apex\s*==\s*first\s*\|\|\s*first\.ends_with\(apex\)\s*\{\s*break\s*;\s*\}", fn_body(rs, "skip_before", after="impl<'a, N, D> RecordsIter<'a, N, D>"), "skip_before")
+    one(r"if\s+!record\.owner\(\)\.name_eq\(first\.owner\(\)\)\s*\{\s*break\s*;\s*\}", fn_body(rs, "next", after="Iterator for RecordsIter<'a, N, D>"), "RecordsIter::next groups by owner")
+    one(r"if\s+record\.rtype\(\)\s*!=\s*first\.rtype\(\)\s*\{\s*break\s*;\s*\}", fn_body(rs, "next", after="Iterator for OwnerRrsIter<'a, N, D>"), "OwnerRrsIter::next groups by type")
+    ew = fn_body(strip_comments(read("src/base/name/traits.rs")), "ends_with")
+    one(r"\(Some\(sl\),\s*Some\(bl\)\)\s*=>\s*\{\s*if\s+sl\s*!=\s*bl\s*\{\s*return\s+false\s*;\s*\}\s*\}\s*\(_,\s*None\)\s*=>\s*return\s+true\s*,\s*\(None,\s*Some\(_\)\)\s*=>\s*return\s+false", ew, "ends_with")
+
     # Record::compose_canonical
     rc = strip_comments(read("src/base/record.rs"))
     rb = fn_body(rc, "compose_canonical", after="impl<N: ToName, D: RecordData + ComposeRecordData> Record<N, D>")
